@@ -62,8 +62,9 @@ class C15(Prop):
             qs = [(rng.randrange(n), rng.randrange(m)) for _ in range(rng.randint(1, 12))]
             qs += [rng.choice(qs) for _ in range(rng.randint(0, 6))]
             rng.shuffle(qs)
+            # memoize, batching and elicitor class vary independently of each other (a batch may contain the same new question twice)
             yield dict(entry="Elicitor", family="sequence", rule="SEQ", V=V, qs=qs, memoize=bool(i % 3), ezi=bool(i % 4 < 2), integer=integer,
-                       cls=["lambda", "profile"][i % 5 == 0], multiple=bool(i % 6 == 0))
+                       cls=["lambda", "profile"][(i // 3) % 5 == 0], multiple=bool((i // 3) % 2 == 0))
         for c in self.long_sequences(rng, tier):
             yield c
 
